@@ -347,7 +347,7 @@ CallNode(n, st, tr, env) ==
        LET a == EvalElts(n.args, 1, kw.st, tr, kw.env, <<>>) IN
        IF a.x # "" \/ ~a.st.ok THEN Ex(a.st, a.x, a.env) ELSE
        FinishCall(f.v, a.vs, kw.names, kw.vs, a.st, tr, a.env, 0)
-  ELSE IF Len(n.args) = 1 /\ n.args[1].k = "Starred" THEN
+  ELSE IF Len(n.args) = 1 /\ n.args[1].k = "Starred" /\ ~Has(st, "star-uses-add") THEN
        \* a sole starred argument: CPython 3.12 converts it to a tuple at the call, i.e. AFTER the
        \* keywords; the language does not fix this - both placements are accepted (lookahead)
        LET sv == Eval(n.args[1].v, f.st, tr, f.env) IN IF Stop(sv) THEN sv ELSE
